@@ -276,4 +276,7 @@ def generate_timestamped_rows(rows, tz):
             raise ValueError(
                 'Non-integer seconds in datetime {}'.format(row[0])
             )
-        yield [int(epoch)] + row[1:]
+        # Convert values here: SQLite's own text-to-real conversion is
+        # not correctly rounded (off by one ulp for some 16-17 digit
+        # decimals)
+        yield [int(epoch)] + [float(value) for value in row[1:]]
